@@ -410,6 +410,8 @@ class KeyrefCounter(IdentityCounter):
         for v in filter(lambda x: x not in refer_values, self.counter):
             if len(v) == 1 and v[0] in refer_values:
                 continue
+            elif any(x is None for x in v):
+                continue  # not in the qualified node set
             elif self.counter[v] > 1:
                 msg = "value {} not found for {!r} ({} times)"
                 yield XMLSchemaValueError(msg.format(v, self.refer, self.counter[v]))
